@@ -109,3 +109,46 @@ Theorem C06_outstanding_accept_means_empty_backlog :
   forall evs, let b := fold_left bk_step evs bk_init in bk_pending b = true -> bk_conns b = [].
 Proof. exact outstanding_accept_means_empty_backlog. Qed.
 Print Assumptions C06_outstanding_accept_means_empty_backlog.
+
+(* ---- no stuck state is left behind by the two events that can create one ---- *)
+(* after the reader wake-up that follows every arrival *)
+Theorem C06_no_read_is_left_pending_on_queued_data :
+  forall cx s w ci,
+  d7_wakeup_fixed (cv cx) = true ->
+  let t := get_tcp w s in
+  t_open t = true -> t_chan t = Some ci -> t_connect_h t = None ->
+  (forall p, In p (t_inq t) -> p_type p = PError -> p_ec p <> EC_WOULD_BLOCK) ->
+  let t' := get_tcp (fst (tcp_maybe_wakeup_reader cx s w)) s in
+  forall h, t_recv_h t' = Some h -> t_recv_null t' = false -> t_inq t' = [].
+Proof. exact no_read_is_left_pending_on_queued_data. Qed.
+Print Assumptions C06_no_read_is_left_pending_on_queued_data.
+
+(* after every acknowledgement *)
+Theorem C06_no_writer_is_left_blocked_with_room_in_the_window :
+  forall cx s p w acked ci,
+  d33_writer_level (cv cx) = true -> p_type p = PAck ->
+  outst_find (t_outst (get_tcp w s)) (p_seq p) = Some acked ->
+  let t := get_tcp w s in
+  let t1 := t <| t_outst := filter (fun x => negb (fst x =? p_seq p)) (t_outst t) |>
+              <| t_inflight := t_inflight t - acked |> in
+  let r := resend_loop cx (length (t_outgoing t1)) s (set_tcp w s t1) in
+  let tr := get_tcp (fst r) s in
+  t_open tr = true -> t_chan tr = Some ci -> t_connect_h tr = None ->
+  let t' := get_tcp (fst (tcp_incoming cx s p w)) s in
+  forall h, t_send_h t' = Some h -> t_cwnd t' < t_inflight t' + t_mss t'.
+Proof. exact no_writer_is_left_blocked_with_room. Qed.
+Print Assumptions C06_no_writer_is_left_blocked_with_room_in_the_window.
+
+(* the tree before the D33 repair violated exactly this (regression witness), the tree as it stands does not *)
+Theorem C06_writer_left_blocked_before_d33_refuted :
+  let cx := mkcx before_d33 0 in
+  let t' := get_tcp (fst (tcp_incoming cx 1 d33_ack d33_state)) 1 in
+  t_send_h t' = Some 7 /\ t_inflight t' = 0 /\ t_inflight t' + t_mss t' <= t_cwnd t' /\ t_outgoing t' = [].
+Proof. exact writer_left_blocked_with_room_before_d33_refuted. Qed.
+Print Assumptions C06_writer_left_blocked_before_d33_refuted.
+
+Theorem C06_writer_is_woken_on_the_same_input_now :
+  let cx := mkcx current 0 in
+  t_send_h (get_tcp (fst (tcp_incoming cx 1 d33_ack d33_state)) 1) = None.
+Proof. exact writer_is_woken_on_the_same_input_now. Qed.
+Print Assumptions C06_writer_is_woken_on_the_same_input_now.
